@@ -29,6 +29,9 @@ type Ver struct {
 	Val model.Bytes `json:"val"`
 	// representation noise that must not matter:
 	XFlags byte `json:"xflags,omitempty"` // unknown flag bits set next to the deleted bit
+	// JunkVal: an incoming *deleted* entry that nevertheless carries a value (a peer violating the
+	// documented MUST); LS must not write it through.
+	JunkVal model.Bytes `json:"junk_val,omitempty"`
 	Ext    int  `json:"ext,omitempty"`    // extension blocks (stored versions only)
 }
 
@@ -58,6 +61,9 @@ func (v Ver) stored(txn uint64) []byte {
 
 func (v Ver) incoming(key []byte, fv uint32) snapshot.KV {
 	kv := snapshot.KV{Key: key, Value: v.Val, TimestampNano: v.TS}
+	if fv >= 2 && v.Del && len(v.JunkVal) > 0 {
+		kv.Value = v.JunkVal
+	}
 	if fv >= 2 {
 		fl := uint32(v.XFlags &^ 1)
 		if v.Del {
@@ -274,7 +280,16 @@ func checkC02(c C02Case, o *vcore.Obs) error {
 			usesDefault = true
 		}
 	}
-	if len(c.In) >= 2 && !anyStale && !usesDefault {
+	// deleted entries that carry a value violate the documented MUST; only the single-step
+	// clauses (what LS writes is well-formed) are asserted for them, not the order relations
+	anyJunk := false
+	for _, in := range c.In {
+		if in.Del && len(in.JunkVal) > 0 {
+			anyJunk = true
+		}
+	}
+	o.ClassIf(anyJunk, "incoming-deleted-with-junk-value")
+	if len(c.In) >= 2 && !anyStale && !usesDefault && !anyJunk {
 		var ref *Ver
 		var refOrder []int
 		for _, p := range perms(len(c.In)) {
@@ -402,6 +417,9 @@ func genVer(t *rapid.T, label string, stored bool) Ver {
 	if rapid.IntRange(0, 3).Draw(t, label+"_del") == 0 {
 		v.Del = true
 		v.Val = model.Bytes{}
+		if !stored && rapid.IntRange(0, 4).Draw(t, label+"_junk") == 0 {
+			v.JunkVal = model.Bytes("junk")
+		}
 	} else {
 		v.Val = rapid.SampledFrom([]model.Bytes{{}, {}, []byte("a"), []byte("b"), []byte("ab"), {0}, {0, 0}, {0xff}, []byte("a\x00")}).Draw(t, label+"_val")
 		if rapid.IntRange(0, 9).Draw(t, label+"_long") == 0 {
@@ -653,6 +671,7 @@ func genC02Upd(t *rapid.T) C02Upd {
 	}
 	c.FV = uint32(rapid.IntRange(1, 3).Draw(t, "fv"))
 	fix := func(v Ver) *Ver {
+		v.JunkVal = nil
 		if c.FV == 1 {
 			v.Del = len(v.Val) == 0
 			v.XFlags = 0
